@@ -820,7 +820,15 @@ void llbuild::basic::spawnProcess(
   }
 
   // Spawn the command.
+  //
+  // The client is told what happened only after the process group lock has
+  // been released: it may cancel the queue from inside these callbacks, and
+  // that takes the same lock.
   bool wasCancelled;
+  bool didAttemptSpawn = false;
+  llbuild_pid_t startedPid = (llbuild_pid_t)-1;
+  std::string spawnError;
+  std::string pipeError;
   do {
       // We need to hold the spawn processes lock when we spawn, to ensure that
       // we don't create a process in between when we are cancelled.
@@ -839,16 +847,8 @@ void llbuild::basic::spawnProcess(
       auto errorPair = createCommunicationPipes(attr, pipesConfig, outputPipeParentEnd, outputPipeChildEnd, controlPipeParentEnd, controlPipeChildEnd);
       if (errorPair.first != CommunicationPipesCreationError::ERROR_NONE) {
         std::string whatPipe = errorPair.first == CommunicationPipesCreationError::OUTPUT_PIPE_FAILED ? "output pipe" : "control pipe";
-#if !defined(_WIN32)
-        posix_spawn_file_actions_destroy(&fileActions);
-        posix_spawnattr_destroy(&attributes);
-#endif
-        delegate.processStarted(ctx, handle, pid);
-        delegate.processHadError(ctx, handle,
-            Twine("unable to open " + whatPipe + " (") + strerror(errorPair.second) + ")");
-        delegate.processFinished(ctx, handle, ProcessResult::makeFailed());
-        completionFn(ProcessResult(ProcessStatus::Failed));
-        return;
+        pipeError = "unable to open " + whatPipe + " (" + strerror(errorPair.second) + ")";
+        break;
       }
 
       if (controlPipeChildEnd.isValid()) {
@@ -909,20 +909,17 @@ void llbuild::basic::spawnProcess(
 #endif
       }
     
-      delegate.processStarted(ctx, handle, pid);
+      didAttemptSpawn = true;
+      startedPid = pid;
 
       if (result != 0) {
-        auto processResult = ProcessResult::makeFailed();
 #if defined(_WIN32)
         result = GetLastError();
 #endif
-        delegate.processHadError(
-            ctx, handle,
-            workingDirectoryUnsupported
-                ? Twine("working-directory unsupported on this platform")
-                : Twine("unable to spawn process '") + argsStorage[0] + "' (" + sys::strerror(result) +
-                      ")");
-        delegate.processFinished(ctx, handle, processResult);
+        spawnError = workingDirectoryUnsupported
+            ? std::string("working-directory unsupported on this platform")
+            : "unable to spawn process '" + argsStorage[0] + "' (" +
+                  sys::strerror(result) + ")";
         pid = (llbuild_pid_t)-1;
       } else {
 #if defined(_WIN32)
@@ -941,6 +938,21 @@ void llbuild::basic::spawnProcess(
   posix_spawn_file_actions_destroy(&fileActions);
   posix_spawnattr_destroy(&attributes);
 #endif
+
+  if (!pipeError.empty()) {
+    delegate.processStarted(ctx, handle, pid);
+    delegate.processHadError(ctx, handle, Twine(pipeError));
+    delegate.processFinished(ctx, handle, ProcessResult::makeFailed());
+    completionFn(ProcessResult(ProcessStatus::Failed));
+    return;
+  }
+  if (didAttemptSpawn) {
+    delegate.processStarted(ctx, handle, startedPid);
+    if (!spawnError.empty()) {
+      delegate.processHadError(ctx, handle, Twine(spawnError));
+      delegate.processFinished(ctx, handle, ProcessResult::makeFailed());
+    }
+  }
 
   // If we failed to launch a process, clean up and abort.
   if (pid == (llbuild_pid_t)-1) {
